@@ -36,7 +36,7 @@ ASSUMPTIONS = [
     "tolerance 1e-10 on sums, 1e-12 on transposes",
 ]
 PROBES = ["mortar_nonmatching", "mortar_one_side_only", "mortar_perturbed_nodes", "secondary_refined", "secondary_copy", "primary_refined", "primary_coarser",
-          "primary_after_nonmatching_mortar", "secondary_after_nonmatching_mortar", "mortar_after_primary", "three_kinds_in_one_run", "immersed_tip", "ge_4_replacements", "mortar_sides_given_in_other_order", "mortar_nonmatching_3d", "secondary_refined_3d", "grid_1d_non_monotone_numbering", "observation_sparse", "observation_end", "both_neighbours_in_one_call", "rejected_mortar_replacement", "nodes_within_tolerance_of_other_grid", "interface_pickled_or_deep_copied"]
+          "primary_after_nonmatching_mortar", "secondary_after_nonmatching_mortar", "mortar_after_primary", "three_kinds_in_one_run", "immersed_tip", "ge_4_replacements", "mortar_sides_given_in_other_order", "mortar_nonmatching_3d", "secondary_refined_3d", "grid_1d_non_monotone_numbering", "observation_sparse", "observation_end", "both_neighbours_in_one_call", "rejected_mortar_replacement", "nodes_within_tolerance_of_other_grid", "interface_pickled_or_deep_copied", "printed_in_between"]
 
 TOL = 1e-9
 
@@ -339,6 +339,18 @@ def run_history_c26(ch, tr: Trace) -> None:
             return
         raise Violation("invalid_call_rejected", f"a mortar replacement with a side grid of dimension {bad.dim} for a 1-d interface was accepted")
 
+    def op_repr():
+        try:
+            repr(intf)
+            str(intf)
+            repr(mdg)
+        except Exception:  # noqa: BLE001
+            pass
+        tr.probe("printed_in_between")
+        tr.op("repr", "ok", changing=False)
+        if obs.due():
+            check_interface(mdg, intf, frac_len, last_where[0] + ", after printing the interface", tr)
+
     def op_pickle():
         """The interface as restored from a pickle (or deep-copied) must carry the same projections."""
         import copy
@@ -353,7 +365,7 @@ def run_history_c26(ch, tr: Trace) -> None:
         except Violation as v:
             raise Violation(v.inv, v.msg, "restored_interface_differs")
 
-    ops = [Op("replace_mortar", 4, op_mortar, core=True), Op("replace_secondary", 2, op_secondary), Op("replace_primary", 3, op_primary), Op("pickle", 1, op_pickle),
+    ops = [Op("replace_mortar", 4, op_mortar, core=True), Op("replace_secondary", 2, op_secondary), Op("replace_primary", 3, op_primary), Op("pickle", 1, op_pickle), Op("repr", 1, op_repr),
            Op("replace_both_neighbours", 2, op_both_neighbours), Op("rejected_mortar", 1, op_rejected_mortar)]
     run_history(ch, tr, ops, 2, 7)
     check_interface(mdg, intf, frac_len, last_where[0] + " (checked at the end of the history)", tr)
